@@ -4,3 +4,4 @@ import BufModel.Faults
 import BufModel.Cache
 import BufModel.Token
 import BufModel.Parallel
+import BufModel.Managed
